@@ -42,11 +42,30 @@ struct CfgCounterTest : CfgTest {
     static constexpr bool hasCounters = true;
 };
 
+struct CfgWeightFloat : CfgCommon {
+    using Real = float;
+    using Space = TbfDefaultSpaceIndexType<float>;
+    static constexpr long NbData = 4;
+    static constexpr bool periodic = false;
+    static constexpr bool canRebuild = true;
+    static constexpr bool hasCounters = false;
+    template <class PK> using TopAlgo = NoTop;
+    using Inner = WeightKernel<Real, Space>;
+    using Rhs = unsigned long;
+    static constexpr long NbRhs = 2;
+    using Mult = std::array<unsigned long, 2>;
+    using Loc = std::array<unsigned long, 2>;
+};
+
 #define REG(key, Cfg, Ex) static WorldRegistrar reg_##Cfg##_##Ex(key, [](const Scenario& s) { return std::unique_ptr<IWorld>(new World<Cfg, Ex>(s)); })
 REG("morton/weight/seq", CfgWeight, EX_SEQ);
 REG("morton/weight/omp", CfgWeight, EX_OMP);
 REG("morton/weight/seqtsm", CfgWeight, EX_SEQ_TSM);
 REG("morton/weight/omptsm", CfgWeight, EX_OMP_TSM);
+REG("morton/weight_float/seq", CfgWeightFloat, EX_SEQ);
+REG("morton/weight_float/omp", CfgWeightFloat, EX_OMP);
+REG("morton/weight_float/seqtsm", CfgWeightFloat, EX_SEQ_TSM);
+REG("morton/weight_float/omptsm", CfgWeightFloat, EX_OMP_TSM);
 REG("morton/test/seq", CfgTest, EX_SEQ);
 REG("morton/test/omp", CfgTest, EX_OMP);
 REG("morton/test/seqtsm", CfgTest, EX_SEQ_TSM);
